@@ -12,6 +12,16 @@ BASE_NOTE = (
 
 # property -> (category, text, technique, design_ref, extra note)
 CLAIMS = {
+    "C02": (
+        "other",
+        "raises-set contracts, for all argument values of the tagged union (JSON-like data incl. inf/nan floats, huge ints, arbitrary strings), on the conversion helpers (to_int, int_arg, num_arg, decimal_arg), "
+        "on 47 registered filters as the composition decorator-wrapper(inner) built by executing the real decorators (string, math, misc, extra), and on RangeLiteral._make_range, LoopExpression._to_int, TablerowNode._int_or_zero and to_liquid_string: "
+        "no exception outside the LiquidError hierarchy escapes; builtins raise per the stated CPython contracts (int(inf) OverflowError, ceil(nan) ValueError, Decimal text InvalidOperation, bytes.decode UnicodeDecodeError ...). "
+        "Array filters behind the recursive flatten generator, date, the node/parser layer and the extra (babel/translate) filters are outside the executor's reach and are covered by a bounded fuzz (every registered filter x 29 hostile values x 0..2 arguments, 21 tag templates x pool^2 x 3 modes, malformed sources).",
+        "contract-based deductive verification (raises-set contracts over a tagged union, z3/cvc5) + bounded contract check",
+        "DESIGN.md section 4 C02",
+        "One known finding (babel-backed filters) keeps the level at 'other'.",
+    ),
     "C16": (
         "proof",
         "Class-refinement contracts: for every method the engine calls on undefined values and each strict class (resolved through the MRO, with the real __getattribute__ executed), S.m either raises UndefinedError or returns what Undefined.m returns; "
